@@ -654,6 +654,53 @@ Apply(s, in) ==
     [] OTHER             -> Res(TRUE, "", s, NoReq)       \* queries are read-only
 
 -----------------------------------------------------------------------------
+(* Stage order (micro-steps), observable without a hook: the ORDERED list of bank movements that   *)
+(* touch the orbiter account during a successful transfer - sweep of the residue, ICS-20 credit,    *)
+(* fee payments in entry order (actions in payload order), swap legs, the route's own movement,     *)
+(* the paymaster fee.  Compared with the bank events of the callback (conformance group "xfers").   *)
+XF(from, to, d, n) == [from |-> from, to |-> to, denom |-> d, amt |-> n]
+RECURSIVE XfFees(_, _, _)
+XfFees(coin, fs, i) == IF i > Len(fs) THEN <<>>
+                       ELSE (IF FeeOf(coin.n, fs[i]) > 0 THEN <<XF("orb", RcptAcct(fs[i].to), coin.d, FeeOf(coin.n, fs[i]))>> ELSE <<>>)
+                            \o XfFees(coin, fs, i + 1)
+RECURSIVE XfActs(_, _, _)
+XfActs(coin, acts, i) ==
+  IF i > Len(acts) THEN [xf |-> <<>>, coin |-> coin]
+  ELSE LET a == acts[i] IN
+       IF ActOf(a.id) = "FEE"
+       THEN LET rest == XfActs([d |-> coin.d, n |-> coin.n - FeeTotal(coin.n, a.fees)], acts, i + 1)
+            IN [xf |-> XfFees(coin, a.fees, 1) \o rest.xf, coin |-> rest.coin]
+       ELSE LET rest == XfActs([d |-> "uswap", n |-> coin.n \div 2], acts, i + 1)
+            IN [xf |-> <<XF("orb", "pool", coin.d, coin.n), XF("pool", "orb", "uswap", coin.n \div 2)>> \o rest.xf, coin |-> rest.coin]
+\* for an orbiter transfer that succeeds
+XfersOf(s0, in) ==
+  LET d == in.base  e == Escrow(in.chan)
+      sweep == IF s0.bal["orb"][d] > 0 THEN <<XF("orb", "dust", d, s0.bal["orb"][d])>> ELSE <<>>
+      acts == XfActs([d |-> d, n |-> in.amt], in.acts, 1)
+      c == acts.coin
+      pid == PidOf(in.fw.pid)
+      fwd == CASE pid = "CCTP" -> <<XF("orb", "cctp", c.d, c.n)>>
+               [] pid = "HYP" -> <<XF("orb", "warp", c.d, c.n)>> \o (IF in.fw.hook = "H_IGP" THEN <<XF("orb", "hyp", IgpDenom, in.fw.gas)>> ELSE <<>>)
+               [] OTHER -> <<XF("orb", RcptAcct(in.fw.to), c.d, c.n)>>
+  IN sweep \o <<XF(e, "orb", d, in.amt)>> \o acts.xf \o fwd
+
+\* ... and the ordered typed events of the callback that mark stages: ICS-20's packet event, one fee
+\* event per fee action, the bridge's events, the paymaster's gas payment, and - last - the
+\* payload-processed event.
+StageEventTypes == {"fungible_token_packet", "noble.orbiter.controller.action.v2.EventFeeAction", "circle.cctp.v1.DepositForBurn",
+                    "hyperlane.warp.v1.EventSendRemoteTransfer", "hyperlane.core.post_dispatch.v1.EventGasPayment",
+                    "noble.orbiter.component.adapter.v1.EventPayloadProcessed"}
+EventsOf(in) ==
+  LET pid == PidOf(in.fw.pid)
+      fees == [i \in DOMAIN SelectSeq(in.acts, LAMBDA a : ActOf(a.id) = "FEE") |-> "noble.orbiter.controller.action.v2.EventFeeAction"]
+  IN <<"fungible_token_packet">> \o fees
+     \o (CASE pid = "CCTP" -> <<"circle.cctp.v1.DepositForBurn">>
+            [] pid = "HYP" -> <<"hyperlane.warp.v1.EventSendRemoteTransfer">>
+                              \o (IF in.fw.hook = "H_IGP" THEN <<"hyperlane.core.post_dispatch.v1.EventGasPayment">> ELSE <<>>)
+            [] OTHER -> <<>>)
+     \o <<"noble.orbiter.component.adapter.v1.EventPayloadProcessed">>
+
+-----------------------------------------------------------------------------
 (* Step records.  S == [pre, in, post, ok, panic, req, ctl, orbUp, othersSame, x]            *)
 (* In model checking every field is computed by the specification; in trace validation pre, *)
 (* post, ok, panic, req, ctl, orbUp, othersSame come from the recorded execution.           *)
